@@ -445,9 +445,24 @@ def gen_em(rng, tier, cs):
         elif sens is not None:
             kw['sensitivities'] = [dom.element(s) for s in sens]
 
+        # mlem (one operator): sensitivities as ONE element / ONE ndarray (wrapped by mlem), a list, a float, or None
+        mlem_mode = None
+        if nops == 1:
+            mlem_mode = 'default' if sens is None else ('scalar' if sens_scalar is not None else
+                                                        rng.choice(['element', 'ndarray', 'list']))
+
         def run(x, it, cb=None):
-            if nops == 1 and sens is None:
-                mlem(ops[0], x, ops[0].range.element(data[0]), it, callback=cb)
+            if mlem_mode is not None:
+                k2 = {}
+                if mlem_mode == 'scalar':
+                    k2['sensitivities'] = sens_scalar
+                elif mlem_mode == 'element':
+                    k2['sensitivities'] = dom.element(sens[0])
+                elif mlem_mode == 'ndarray':
+                    k2['sensitivities'] = np.array(sens[0], dtype=float)
+                elif mlem_mode == 'list':
+                    k2['sensitivities'] = [dom.element(sens[0])]
+                mlem(ops[0], x, ops[0].range.element(data[0]), it, callback=cb, **k2)
             else:
                 osmlem(ops, x, [o.range.element(d) for o, d in zip(ops, data)], it, callback=cb, **kw)
         t1, c1 = _rec()
@@ -465,9 +480,9 @@ def gen_em(rng, tier, cs):
                'ke_split := %s |}'
                % (n, C.lst(Ms, C.qss), C.qss(data), 'None' if sens is None else '(Some %s)' % C.qss(sens), C.qs(x0),
                   N, C.qss(t1), C.qss(sp)),
-               {'solver': 'mlem' if nops == 1 and sens is None else 'osmlem', 'Ms': Ms, 'data': data, 'sens': sens,
+               {'solver': ('mlem sensitivities=%s' % mlem_mode) if mlem_mode is not None else 'osmlem', 'Ms': Ms, 'data': data, 'sens': sens,
                 'x0': x0, 'niter': N},
-               ('em', n, tuple(ms), sens is None, N, tuple(x0)) if N > 0 else None)
+               ('em', n, tuple(ms), sens is None, mlem_mode, N, tuple(x0)) if N > 0 else None)
 
 
 def gen_sd(rng, tier, cs):
@@ -1420,8 +1435,12 @@ def _contract(d):
             kw = {'sensitivities': None}
         if sv == 'mlem':
             def call(st, it, cb=None):
-                k2 = {'sensitivities': args['sens'][0] if (isinstance(args.get('sens'), list) and d.get('sens_as') == 'element')
-                      else args['sens']} if kw else {}
+                sv_ = args.get('sens')
+                if isinstance(sv_, list) and d.get('sens_as') == 'element':
+                    sv_ = sv_[0]
+                elif isinstance(sv_, list) and d.get('sens_as') == 'ndarray':
+                    sv_ = np.asarray(sv_[0])
+                k2 = {'sensitivities': sv_} if kw else {}
                 mlem(args['ops'][0], st[0], args['data'][0], it, callback=cb, **k2)
         else:
             def call(st, it, cb=None):
@@ -1519,6 +1538,8 @@ def _contract_probes(rng, count):
     # fixed members: mlem with ONE element as sensitivities (the documented form); landweber with x -> M (x.x)
     out.append(({'kind': 'contract', 'solver': 'mlem', 'x0': [1.0, 1.0], 'niter': 2, 'ops': [['rn', [[1.0, 2.0], [0.0, 1.0]]]],
                  'data': [[3.0, 1.0]], 'sens': [[0.5, 4.0]], 'sens_as': 'element'}, 'contract-mlem-sensitivities=element'))
+    out.append(({'kind': 'contract', 'solver': 'mlem', 'x0': [1.0, 2.0], 'niter': 2, 'ops': [['rn', [[1.0, 2.0], [0.0, 1.0]]]],
+                 'data': [[3.0, 1.0]], 'sens': [[0.5, 4.0]], 'sens_as': 'ndarray'}, 'contract-mlem-sensitivities=ndarray'))
     out.append(({'kind': 'contract', 'solver': 'landweber', 'x0': [1.0, -0.5], 'niter': 3, 'op': ['matsq', [[1.0, 1.0], [0.0, -1.0]]],
                  'rhs': [0.5, 0.25], 'omega': 0.0625, 'proj': None}, 'contract-landweber-matsq'))
     for i in range(count):
@@ -1566,9 +1587,8 @@ def _contract_probes(rng, count):
                 d['sens'] = rng.choice([0.5, 2.0, 4.0])
             elif mode == 'list':
                 d['sens'] = [[rng.choice([0.5, 1.0, 2.0, 4.0]) for _ in range(n)] for _ in ms]
-                if sv == 'mlem' and rng.random() < 0.5:      # the documented form for mlem: ONE domain element
-                    d['sens_as'] = 'element'
-                    mode = 'element'
+                if sv == 'mlem' and rng.random() < 0.67:     # the documented form for mlem: ONE domain element(-like)
+                    d['sens_as'] = mode = rng.choice(['element', 'ndarray'])
             tag = 'sensitivities=' + mode
         elif sv == 'admm_linearized':
             m = rng.randint(1, 3)
